@@ -92,8 +92,7 @@ def class_of(interp, pred):
         found = CharClass(ch, phi, fn, len(reg))
         reg.append(found)
         st.assume(fn(z3.StringVal('')))
-        for whole, parts in list(st.ghost.get('__concats__', [])):
-            note_concat(interp, whole, parts, only=found)
+        strings.replay_concats(interp, lambda whole, parts: note_concat(interp, whole, parts, only=found))
     if ck is not None:
         cache[ck] = found
     return found
@@ -105,14 +104,15 @@ def _facts(interp, cc, p):
     if z3.is_string_value(p):
         sv = p.as_string()
         if not strings._has_escape_val(p):
-            st.assume(cc.fn(p) == z3.And(*[cc.at(strings._charval(c)) for c in sv]) if sv else cc.fn(p))
+            st._add(cc.fn(p) == z3.And(*[cc.at(strings._charval(c)) for c in sv]) if sv else cc.fn(p))
         return
     key = ('__charclass_facts__', cc.index, p.get_id())
     if key in st.ghost:
         return
     st.ghost[key] = p
-    st.assume(z3.Implies(z3.Length(p) == 0, cc.fn(p)))
-    st.assume(z3.Implies(z3.Length(p) == 1, cc.fn(p) == cc.at(p)))
+    # valid for every string p: added outside any merge scope
+    st._add(z3.Implies(z3.Length(p) == 0, cc.fn(p)))
+    st._add(z3.Implies(z3.Length(p) == 1, cc.fn(p) == cc.at(p)))
 
 
 def note_concat(interp, whole, parts, only=None):
